@@ -6,7 +6,8 @@ from vp import val, coqrun, rustrun
 from vp.val import cN, cbool, clist, cpair, copt
 from gen.common import IPV4, IPV6, IPV4_VPN
 
-FAMS = [IPV4, IPV6, IPV4_VPN]
+IPV4_MC = (1 << 16) | 2
+FAMS = [IPV4, IPV6, IPV4_MC]          # families whose NLRI the neighbour side of the harness can put on the wire
 RT, LT = 120, 3600
 
 # reasons: 0 tcp/io, 1 remote cease, 2 remote hard reset, 3 local cease, 4 local hard reset,
@@ -47,7 +48,8 @@ def hev_to_val(e):
         lgr, rgr, lll, rll = e[4] if len(e) > 4 else default_caps(e[2], e[3])
         g = lambda x: [] if x is None else [[list(x[0]), x[1], 1 if x[2] else 0]]
         l = lambda x: [] if x is None else [[list(p) for p in x]]
-        return [0, list(e[1]), g(lgr), g(rgr), l(lll), l(rll)]
+        hold = e[5] if len(e) > 5 else 90
+        return [0, list(e[1]), g(lgr), g(rgr), l(lll), l(rll), hold]
     if t == 'ann': return [1, e[1], e[2], 1 if e[3] else 0, 1 if e[4] else 0]
     if t == 'eor': return [2, e[1]]
     if t == 'down': return [3, e[1]]
@@ -145,29 +147,40 @@ class Prop:
             'and outside the session families; a case is non-trivial when a route is retained stale at some step; '
             'distinct = distinct observation trajectories')
     exhaustive = {'quick': True, 'thorough': True}
-    trusted_base = ['the glue runs as it is on a real Global / PeerContext / TableManager / PeerSession::new_for_test: apply_outputs '
-                    '(PeerCodec::negotiate, negotiate_gr, negotiate_llgr, on_established, the effects it raises), process_effects, '
-                    'PeerSession::teardown (the end of session_loop, split out by a behaviour-preserving hook commit), apply_disconnect, '
-                    'gr_on_disconnect, families_to_drop_on_disconnect, unregister_peer, gr_restart_timer_expired, llgr_timer_expired, '
-                    'spawn_llgr_timers, force_down, Global::add_peer',
-                    'still hand-built by the harness: the two FSM outputs SessionNegotiated / SessionEstablished fed to apply_outputs '
-                    '(PeerFsm itself is property C07), the GrEorReceived effect together with its gate on negotiated_gr (replica of three '
-                    'lines of the UPDATE receive path), the initial DisconnectInfo of a connection that never established, the order '
-                    'teardown -> apply_disconnect of run(), the admin_down field set directly on the Peer record (not through the gRPC handler)',
+    trusted_base = ['every session of a glue history is a real PeerSession::run() (session_loop with its select loop and its '
+                    'end-of-session block, apply_outputs, process_effects, rx_msg / rx_update, the End-of-RIB gate, apply_disconnect, '
+                    'gr_on_disconnect, families_to_drop_on_disconnect, unregister_peer, the timer handlers, spawn_llgr_timers) over a '
+                    'loopback TCP pair on a real Global / PeerContext / TableManager; the harness is the neighbour on the other end of '
+                    'the socket: OPEN / KEEPALIVE, UPDATEs (ADD-PATH, communities), End-of-RIB, NOTIFICATIONs (Cease, Hard Reset), '
+                    'closing the socket, a non-BGP header, silence until a 3 s hold timer expires, CloseReason::AdminShutdown on the '
+                    'session\'s close channel, a prefix limit of 0 on a never-announced family for the local Cease',
+                    'every session is built by the real accept_connection() from the Peer record (Global::add_peer) of the address '
+                    'the connection comes from, which also registers its close channel with the ConnArbiter and refuses an admin-down peer '
+                    'or a second connection; force_down() therefore closes a live session for real',
+                    'hand-built by the harness: before each connection the local capabilities of the case are written into '
+                    'Peer.config.local_cap and a PeerFsm sending them is put into the PeerContext (they differ from session to session; the '
+                    'daemon derives them once from the configuration); the admin_down field is set directly on the Peer record (not '
+                    'through the gRPC handler); CloseReason::AdminShutdown is sent on the registered close channel (what disable_peer does); '
+                    'the negotiated GR/LLGR values that are observed come from a second, throw-away PeerSession::new_for_test() driven '
+                    'through apply_outputs with the same capabilities; a local Hard Reset cannot be produced on a socket and is covered only '
+                    'by the function-level gr_on_disconnect cases',
                     'timers are fired through their oneshot sender (the RunNow path); a timer counts as armed while its sender is '
-                    'present and not closed; wall-clock expiry is not exercised; LLGR/restart durations are observed as negotiated values, '
-                    'not as the durations handed to tokio']
+                    'present and not closed; wall-clock expiry of the restart / LLGR timers is not exercised (the hold timer is: really waited for)']
     assumptions = ['one peer, one shard; the restarting-speaker role (selection_deferral) is inactive',
                    'at most one Established session at a time (property C07)',
                    'a route is identified by (family, prefix, path id); attributes other than the NO_LLGR / LLGR_STALE communities, '
                    'best-path order and distribution to other peers are outside the model']
 
     def case_to_val(self, c):
+        if c['kind'] == 'gd':
+            return [2, c['reason'], 1 if c['nbit'] else 0]
         if c['kind'] == 'gr':
             return [1, [grin_to_val(i) for i in c['ins']]]
         return [1, [hev_to_val(e) for e in c['evs']]]
 
     def case_to_coq(self, c):
+        if c['kind'] == 'gd':
+            return 'VB (gr_applies %s %s)' % ((REASON_COQ + ['RsOther'])[c['reason']], cbool(c['nbit']))
         if c['kind'] == 'gr':
             return 'run_gr_case %s' % clist([grin_to_coq(i) for i in c['ins']])
         return 'run_h_case %s' % clist([hev_to_coq(e) for e in c['evs']])
@@ -243,18 +256,38 @@ class Prop:
                     evs.append(('ann', rng.choice(list(up[1]) if rng.random() < 0.95 else F), rng.randint(0, 3),
                                 rng.random() < 0.2, (mode in ('comm', 'any')) and rng.random() < 0.2))
                 elif x < 0.65:
-                    evs.append(('eor', rng.choice(list(up[1]) if rng.random() < 0.9 else F)))
+                    evs.append(('eor', rng.choice(list(up[1]))))
                 elif x < 0.93:
                     if mode == 'clean':
                         nbit = bool(up[2] and up[2][2])
                         r = rng.choice([0, 0, 0, 1, 3, 6]) if nbit else 0
                     else:
-                        r = rng.randint(0, 7)
+                        r = rng.choice([0, 1, 2, 3, 5, 6, 7])      # 4 (local hard reset) cannot be produced on a socket
                     if mode in ('admin', 'any') and rng.random() < 0.2:
                         evs.append(('admin', True))
+                    elif mode in ('admin', 'any') and rng.random() < 0.1:
+                        evs.append(('admin', False))
                     evs.append(('down', r)); up = None
+                elif mode in ('force', 'any') and rng.random() < 0.4:
+                    evs.append(('force',)); up = None        # closes the live session
                 else:
                     evs.append(('rtimer',) if rng.random() < 0.5 else ('ltimer', rng.choice(F)))
+        return evs
+
+    @staticmethod
+    def with_hold(evs, allow_hold):
+        """a session that is going to end by hold-timer expiry negotiates a 3 s hold time (the harness
+        really waits for it); when the budget of such waits is used up the reason becomes a remote Cease"""
+        evs = list(evs)
+        for k, e in enumerate(evs):
+            if e[0] == 'down' and e[1] == 6 and not allow_hold:
+                evs[k] = ('down', 1)
+        for k, e in enumerate(evs):
+            if e[0] == 'up':
+                nxt = next((x for x in evs[k + 1:] if x[0] in ('down', 'up')), None)
+                hold = 3 if nxt is not None and nxt[0] == 'down' and nxt[1] == 6 else 90
+                caps = e[4] if len(e) > 4 else default_caps(e[2], e[3])
+                evs[k] = (e[0], e[1], e[2], e[3], caps, hold)
         return evs
 
     def gen_cases(self, rng, tier):
@@ -267,13 +300,24 @@ class Prop:
             cases.append(dict(kind='gr', ins=[rng.choice(al) for _ in range(rng.randint(4, 14))]))
         nh = 1200 if tier == 'quick' else 12000
         modes = ['clean'] * 6 + ['nogr', 'any', 'any', 'fail', 'force', 'comm', 'admin', 'mixed', 'offfam']
+        hold_budget = 10 if tier == 'quick' else 60
         for _ in range(nh):
-            cases.append(dict(kind='h', evs=self.rand_history(rng, rng.choice(modes))))
+            evs = self.rand_history(rng, rng.choice(modes))
+            n6 = len([1 for e in evs if e[0] == 'down' and e[1] == 6])
+            allow = n6 > 0 and n6 <= hold_budget
+            if allow:
+                hold_budget -= n6
+            cases.append(dict(kind='h', evs=self.with_hold(evs, allow)))
+        # gr_on_disconnect alone, every reason class (including the local hard reset, which no
+        # socket event produces) with and without the N bit
+        for r in range(9):
+            for nb in (False, True):
+                cases.append(dict(kind='gd', reason=r, nbit=nb))
         return cases
 
     # ---- running
     def run_impl(self, cases, tier):
-        idx_h = [k for k, c in enumerate(cases) if c['kind'] == 'h']
+        idx_h = [k for k, c in enumerate(cases) if c['kind'] in ('h', 'gd')]
         idx_g = [k for k, c in enumerate(cases) if c['kind'] == 'gr']
         out = [None] * len(cases)
         for idx, name, test in ((idx_g, 'C10', 'gr::verif_hx::verif_gr_cases'),
@@ -293,6 +337,8 @@ class Prop:
     def canon(self, case, obs):
         if obs == [-1]:
             return obs
+        if case['kind'] == 'gd':
+            return obs
         if case['kind'] == 'gr':
             return [[[[o[0], sorted(o[1])] if o[0] in (2, 5) else o for o in outs], b] for outs, b in obs]
         return [[a, b, sorted(lt), sorted(rs), ng] for a, b, lt, rs, ng in obs]
@@ -301,6 +347,11 @@ class Prop:
     def oracle(self, c, obs):
         if obs == [-1]:
             return 'panic in the graceful-restart helper'
+        if c['kind'] == 'gd':
+            # RFC 4724 / 8538: TCP failure always; NOTIFICATION (not Hard Reset, Cease only when sent by us)
+            # and hold-timer expiry only with the N bit; never for FSM errors and admin shutdown
+            want = c['reason'] == 0 or (c['reason'] in (1, 3, 6) and c['nbit'])
+            return None if bool(obs) == want else 'gr_on_disconnect(reason %d, N bit %s) = %s' % (c['reason'], c['nbit'], obs)
         if c['kind'] == 'gr':
             return oracle_gr(c, obs)
         return oracle_h(c, obs)
@@ -313,6 +364,8 @@ class Prop:
     def nontrivial_key(self, c, obs):
         if obs == [-1]:
             return ('panic',)
+        if c['kind'] == 'gd':
+            return None
         if c['kind'] == 'gr':
             if any(b for _, b in obs):
                 return ('gr', json.dumps(obs))
@@ -322,6 +375,8 @@ class Prop:
         return None
 
     def classify(self, c, obs):
+        if c['kind'] == 'gd':
+            return ['gr_on_disconnect']
         if c['kind'] == 'gr':
             return ['gr_machine'] + ['gr_' + i[0] for i in c['ins']]
         ks = known_classes(c['evs'])
@@ -366,7 +421,7 @@ def oracle_h(c, obs):
         t = e[0]
         if t == 'admin':
             admin = e[1]
-        elif t == 'up' and sess is None:
+        elif t == 'up' and sess is None and not admin:      # an admin-down peer's connection is refused
             sess = e; gen += 1
             grf = set(e[2][0]) if e[2] else set()
             awaiting = set(f for f in grf if f in helper_fams)
@@ -409,6 +464,11 @@ def oracle_h(c, obs):
             helper_fams.discard(e[1])
         elif t == 'force':
             helper_fams = set(lts)
+            if sess is not None:
+                # the live session is closed administratively: nothing of it may be retained
+                if routes:
+                    return 'step %d: routes retained after a forced peer-down of the live session' % k
+                helper_fams = set(); sess = None; awaiting = set(); fresh = {}
         # -- invariants after every step
         cur = gen if sess else -9
         for r in routes:
